@@ -56,6 +56,9 @@ def gen_config(d: Draw, prop):
     if cfg['host'] == 'giant':
         cfg['host_tides'] = d.chance(1, 3)
     if d.chance(1, 4):
+        # the world's configuration itself carries an orbit (loaded when the world joins the orbit)
+        cfg['config_orbit'] = d.pick(['period', 'axis_m', 'axis_au'])
+    if d.chance(1, 4):
         # a second tidal body shares the orbit (updates of the two bodies interleave)
         cfg['n_bodies'] = 2
         cfg['sync2'] = d.chance(1, 2)
@@ -421,7 +424,7 @@ class OopStateEngine(EngineBase):
             yield new
         cfg = plan['config']
         for key, plain in (('host', 'star'), ('host_tides', False), ('obliq', False), ('trunc', 2), ('sync', False),
-                           ('lmax', 2), ('rheology', None), ('n_bodies', 1)):
+                           ('lmax', 2), ('rheology', None), ('n_bodies', 1), ('config_orbit', None)):
             if key in cfg and cfg[key] != plain:
                 if key == 'sync' and any(_has_spin(o) for o in plan['ops']):
                     continue
@@ -484,6 +487,10 @@ class OopStateEngine(EngineBase):
         state = {}
         n_applied = 0
         obs_digest = []
+        if cfg.get('config_orbit'):
+            bump('probe:orbit_loaded_from_configuration')
+            self._kepler_oracle(hist, -1, 'construction (orbit from the world configuration: %s)' % cfg['config_orbit'], viol, bump,
+                                ride=(prop == 'C17'))
         for i, op in enumerate(plan['ops']):
             label = _op_label(op)
             bump('op:' + op['op'] + (':' + op.get('name', '') if op.get('name') else '') + ('@host' if op.get('target') == 'host' else ''))
